@@ -266,6 +266,10 @@ func (e BridgeEngine) genKind(r *Run, kind string) (Step, bool) {
 		t := toks[r.Rng.IntN(len(toks))]
 		if r.Pct(70) {
 			target := ""
+			if (r.Prop == "C03" || r.Prop == "C02") && r.Pct(50) {
+				// routing targets in every spelling the parser knows
+				target = []string{"erc20", "module/evm", "px/transfer/channel-0", "ibc/0/px", "ibc/0/0x", "chain/gravity", "gravity", "chain/erc20"}[r.Rng.IntN(8)]
+			}
 			if v := r.Cfg.World.IbcVoucher; v != nil && r.Pct(45) {
 				// deposit that is to travel on over IBC: the open channel (bech32 or hex receiver form), sometimes a route
 				// that does not exist
@@ -649,6 +653,23 @@ func (e BridgeEngine) variantFor(r *Run, c *ChainSt, ev *ExtEvent) (string, stri
 		}
 		if len(ok) > 0 {
 			return ok[r.Rng.IntN(len(ok))], "-"
+		}
+	}
+	if r.Pct(30) {
+		// another spelling of a routing target
+		type fv struct{ f, v string }
+		var ok []fv
+		for _, f := range fields {
+			for k := 0; k < nTargetSpellings; k++ {
+				cl := c.buildClaim(w, ev, c.bridgerKey(w, 0).Bech(), "")
+				if mutateClaim(cl, "alias:"+f, fmt.Sprint(k)) == nil && safeValidate(cl) == nil {
+					ok = append(ok, fv{"alias:" + f, fmt.Sprint(k)})
+				}
+			}
+		}
+		if len(ok) > 0 {
+			x := ok[r.Rng.IntN(len(ok))]
+			return x.f, x.v
 		}
 	}
 	otherAddr := ExtAddrStr(c.Name, w.Key("extuser", 50+r.Rng.IntN(5)).Hex())
